@@ -2,6 +2,8 @@ package main
 
 import (
 	"fmt"
+	"sort"
+	"strings"
 
 	"verifharness/vh"
 )
@@ -62,11 +64,11 @@ func (e *engine) randSched(r *vh.Rng, n int) Sched {
 		s.Chunk, s.Seed = "rand", r.U64()%1000
 	}
 	if r.Chance(5) {
-		s.Chunk = "z" + s.Chunk
+		s.Chunk = vh.Pick(r, []string{"z", "e"}) + s.Chunk
 	}
 	if r.Chance(8) {
 		s.FaultAt = r.Intn(n + 1)
-		s.Fault = vh.Pick(r, []string{"inj", "ueof"})
+		s.Fault = vh.Pick(r, faultKinds)
 	}
 	return s
 }
@@ -181,7 +183,7 @@ func (e *engine) runTotality() {
 			for i := 0; i < nFault; i++ {
 				s := vh.Pick(r, ss)
 				sc := e.randSched(r, len(s.B))
-				sc.FaultAt, sc.Fault = r.Intn(len(s.B)+1), vh.Pick(r, []string{"inj", "ueof"})
+				sc.FaultAt, sc.Fault = r.Intn(len(s.B)+1), vh.Pick(r, faultKinds)
 				if r.Chance(20) {
 					sc.FaultAt = len(s.B) // after the last byte
 				}
@@ -195,6 +197,30 @@ func (e *engine) runTotality() {
 				o.Offsets = off
 				emit(Case{Format: "rdfxml", Opts: o, Sched: wholeSched, Input: d.B, Family: "xml-error-paths", Name: d.Name})
 			}
+			if e.has("rdfxml") {
+				kind := strings.SplitN(d.Name, ":", 2)[0] // attr | node-element | property-element | … | directive
+				if i := strings.Index(d.Name, "/spelling"); i > 0 {
+					kind = "attr" + strings.SplitN(d.Name[i:], "/host", 2)[0] // attr/spelling<k>
+				}
+				repMu.Lock()
+				e.rep.Hist["xml-error-paths:"+kind+"(x offsets on/off)"]++
+				repMu.Unlock()
+			}
+		}
+		// 5c. RDFa / Microdata token-list attributes x separator characters (deterministic, every run)
+		for _, d := range htmlTokenListDocs() {
+			for _, f := range []string{"rdfa", "microdata", "html"} {
+				for _, off := range []bool{true, false} {
+					o := e.randOpts(r, f)
+					o.Offsets = off
+					emit(Case{Format: f, Opts: o, Sched: wholeSched, Input: d.B, Family: "token-separators", Name: d.Name})
+				}
+			}
+			repMu.Lock()
+			parts := strings.Split(d.Name, "/") // <attr>/sep-<name>/place<k>; each document x rdfa, microdata, html x offsets on/off
+			e.rep.Hist["token-separators:attr:"+parts[0]]++
+			e.rep.Hist["token-separators:"+parts[1]]++
+			repMu.Unlock()
 		}
 		// 6. nesting and huge tokens; the big ones go to an expendable child process
 		for _, f := range allFormats {
@@ -239,6 +265,7 @@ func (e *engine) runTotality() {
 			}
 		}
 	})
+	e.runGrowth()
 	e.runRisky()
 	e.confirmSuspects()
 }
@@ -273,9 +300,35 @@ func (e *engine) confirmSuspects() {
 		e.rep.Hist["suspects-not-confirmed(dropped)"] += len(s) - 5000
 		s = s[:5000]
 	}
-	e.farm(1, func(emit func(job)) {
+	// Rounds of at most three suspects per class (format, generator family): once a class has a
+	// confirmed hang its remaining suspects add nothing but seconds (a decoder that hangs on one
+	// member of a family hangs on dozens) and are only counted; a class without a confirmed hang
+	// goes on to its next three.
+	sort.SliceStable(s, func(i, j int) bool { return len(s[i].Input) < len(s[j].Input) })
+	classOf := func(c Case) string { return "hang|" + c.Format + "|" + hangSub(c) }
+	for len(s) > 0 {
+		var round, rest []Case
+		taken := map[string]int{}
 		for _, c := range s {
-			emit(job{Kind: jobConfirm, C: c})
+			key := classOf(c)
+			repMu.Lock()
+			confirmed := e.k.seen[key] > 0
+			repMu.Unlock()
+			switch {
+			case confirmed:
+				e.rep.Hist["suspects-not-confirmed(class already has a confirmed hang)"]++
+			case taken[key] < 3:
+				taken[key]++
+				round = append(round, c)
+			default:
+				rest = append(rest, c)
+			}
 		}
-	})
+		e.farm(1, func(emit func(job)) {
+			for _, c := range round {
+				emit(job{Kind: jobConfirm, C: c})
+			}
+		})
+		s = rest
+	}
 }
